@@ -164,9 +164,26 @@ impl C04 {
         if let Some(r) = mon(ctx, "ImDocument::parse", || toml_edit::ImDocument::parse(text)) {
             match r {
                 Ok(doc) => {
-                    mon(ctx, "ImDocument::{Debug,walk,into_mut}", || {
+                    mon(ctx, "ImDocument::{Debug,walk,Display of its parts,clone,into_mut}", || {
                         let _ = format!("{doc:?}").len();
                         let _ = crate::obs::edit_table_to_r(doc.as_table());
+                        // everything a caller can print without making the document editable first
+                        let _ = doc.as_table().to_string().len();
+                        let _ = doc.as_item().to_string().len();
+                        for (k, item) in doc.as_table().iter() {
+                            let _ = item.to_string().len();
+                            let _ = format!("{item:?}").len();
+                            if let Some(key) = doc.as_table().key(k) {
+                                let _ = key.to_string().len();
+                                let _ = key.display_repr().len();
+                            }
+                            if let Some(v) = item.as_value() {
+                                let _ = v.to_string().len();
+                                let _ = v.clone().decorated("", "").to_string().len();
+                            }
+                        }
+                        let c = doc.clone();
+                        drop(c);
                         let m = doc.into_mut();
                         m.to_string().len()
                     });
